@@ -344,10 +344,10 @@ def shards(tier, seed):
     out = [{"kind": "atoms"}]
     out += [{"kind": "depth1", "part": i, "parts": n} for i in range(n)]
     out += [{"kind": "depth2", "part": i, "parts": n, "sample": 4000 if tier == "quick" else None} for i in range(n)]
-    out += [{"kind": "depth3", "part": i, "parts": 4, "sample": 1500 if tier == "quick" else 30000} for i in range(4)]
-    out += split_shards("random", 5000 if tier == "quick" else 160000, 4 if tier == "quick" else 12)
+    out += [{"kind": "depth3", "part": i, "parts": 4, "sample": 1500 if tier == "quick" else 90000} for i in range(4)]
+    out += split_shards("random", 5000 if tier == "quick" else 480000, 4 if tier == "quick" else 12)
     out += [{"kind": "dicts"}]
-    out += split_shards("algebra", 1500 if tier == "quick" else 40000, 2 if tier == "quick" else 6)
+    out += split_shards("algebra", 1500 if tier == "quick" else 120000, 2 if tier == "quick" else 6)
     if tier == "thorough":
         out.append({"kind": "repo_tests_under_contracts"})
     return out
